@@ -292,18 +292,24 @@ func streamFamilies(tier string, run streamBody) []engine.Family {
 			mk(x, "lengths", cd, 0, evs)
 		}},
 		{Name: "deep", Arity: []int{3}, Body: func(x *engine.Exec) {
-			// nesting across the sizes of the inline stacks (32 / 64 entries) of encoders and parsers
+			// nesting across the sizes of the inline stacks (32 / 64 entries) of encoders and parsers and across their first three growth steps
 			cd := codecs[x.Choose(3)]
-			depth := []int{31, 32, 33, 34, 63, 64, 65, 66, 70}[x.Choose(9)]
+			depth := []int{31, 32, 33, 34, 63, 64, 65, 66, 70, 127, 128, 129, 130, 257}[x.Choose(14)]
 			kind := x.Choose(3) // arrays, objects, alternating
 			known := x.Bool()
-			l := -1
-			if known {
-				l = 1
-			}
+			sib := x.Choose(3) // no sibling; one more element behind the deep child in the outermost container; in every container
 			var evs []model.Event
+			hasSib := func(i int) bool { return sib == 2 || (sib == 1 && i == 0) }
+			isObj := func(i int) bool { return kind == 1 || (kind == 2 && i%2 == 1) }
 			for i := 0; i < depth; i++ {
-				if kind == 1 || (kind == 2 && i%2 == 1) {
+				l := -1
+				if known {
+					l = 1
+					if hasSib(i) {
+						l = 2
+					}
+				}
+				if isObj(i) {
 					evs = append(evs, model.ObjStart(l, structform.AnyType), model.Key("k"))
 				} else {
 					evs = append(evs, model.ArrStart(l, structform.AnyType))
@@ -311,9 +317,15 @@ func streamFamilies(tier string, run streamBody) []engine.Family {
 			}
 			evs = append(evs, model.Str("leaf"))
 			for i := depth - 1; i >= 0; i-- {
-				if kind == 1 || (kind == 2 && i%2 == 1) {
+				if isObj(i) {
+					if hasSib(i) {
+						evs = append(evs, model.Key("s"), model.SInt(model.KInt8, int64(i%100)))
+					}
 					evs = append(evs, model.ObjEnd())
 				} else {
+					if hasSib(i) {
+						evs = append(evs, model.SInt(model.KInt8, int64(i%100)))
+					}
 					evs = append(evs, model.ArrEnd())
 				}
 			}
